@@ -127,15 +127,42 @@ def run_harness(binname, ctx, extra=(), timeout=3000, build=True):
         return json.load(f)
 
 
+COQPROJECT_HEAD = """-Q theories FeosVerif
+-Q props FeosProps
+-arg -w -arg -notation-overridden,-deprecated-hint-without-locality,-deprecated-instance-without-locality,-ambiguous-paths,-deprecated-syntactic-definition
+"""
+
+
+def _coqproject_text():
+    lines = [COQPROJECT_HEAD.rstrip("\n")]
+    for d in ("theories", "props"):
+        dd = os.path.join(COQ, d)
+        if os.path.isdir(dd):
+            lines += ["%s/%s" % (d, f) for f in sorted(os.listdir(dd)) if f.endswith(".v")]
+    return "\n".join(lines) + "\n"
+
+
 def build_coq(ctx=None, targets=None):
-    """(re)build the Coq library with the generated Makefile; full .vo build."""
-    if not os.path.exists(os.path.join(COQ, "Makefile")) or \
-            os.path.getmtime(os.path.join(COQ, "Makefile")) < os.path.getmtime(os.path.join(COQ, "_CoqProject")):
-        rc, out, _ = sh(["coq_makefile", "-f", "_CoqProject", "-o", "Makefile"], cwd=COQ)
-        if rc != 0:
-            raise InfraError("coq_makefile failed: " + out)
-    cmd = ["make", "-j%d" % NPROC] + (list(targets) if targets else [])
-    rc, out, secs = sh(cmd, cwd=COQ, timeout=3000)
+    """(re)build the Coq library (full .vo, never -vos).  _CoqProject lists every theories/*.v and props/*.v and is
+    regenerated (with the Makefile) whenever that set changes.  `targets`: .v paths whose .vo (and dependencies) are
+    wanted; default: everything.  Serialised by a file lock so that concurrent checks do not race."""
+    import fcntl
+    os.makedirs(os.path.join(VERIF, "build"), exist_ok=True)
+    with open(os.path.join(VERIF, "build", "coq.lock"), "w") as lk:
+        fcntl.flock(lk, fcntl.LOCK_EX)
+        want = _coqproject_text()
+        cp = os.path.join(COQ, "_CoqProject")
+        have = open(cp).read() if os.path.exists(cp) else ""
+        if want != have or not os.path.exists(os.path.join(COQ, "Makefile")):
+            with open(cp, "w") as f:
+                f.write(want)
+            rc, out, _ = sh(["coq_makefile", "-f", "_CoqProject", "-o", "Makefile"], cwd=COQ)
+            if rc != 0:
+                raise InfraError("coq_makefile failed: " + out)
+        cmd = ["make", "-j%d" % NPROC]
+        if targets:
+            cmd += [os.path.relpath(t, COQ)[:-2] + ".vo" for t in targets]
+        rc, out, secs = sh(cmd, cwd=COQ, timeout=3000)
     if ctx:
         ctx.log("coq_make.log", out)
     return rc == 0, out
@@ -366,11 +393,11 @@ def hygiene(paths):
     probs = []
     for p in paths:
         probs += hygiene_file(p)
-    # build flags
-    for f in ("_CoqProject",):
-        t = open(os.path.join(COQ, f)).read()
-        if re.search(r"type-in-type|impredicative-set|bypass", t):
-            probs.append("_CoqProject passes a forbidden flag")
+    # build flags: _CoqProject is generated from COQPROJECT_HEAD; an edited copy must not smuggle flags in
+    cp = os.path.join(COQ, "_CoqProject")
+    t = (open(cp).read() if os.path.exists(cp) else "") + COQPROJECT_HEAD
+    if re.search(r"type-in-type|impredicative-set|bypass|-vos|-vok", t):
+        probs.append("_CoqProject passes a forbidden flag")
     return probs
 
 
@@ -450,11 +477,20 @@ class InfraError(Exception):
 
 
 def load_known(pid):
-    try:
-        k = json.load(open(KNOWN))
-    except OSError:
-        return []
-    return [e for e in k.get("findings", []) if e.get("property") == pid and e.get("status", "open") == "open"]
+    """open known findings of a property: entries of known_findings.json (and known_findings/*.json while building)
+    {"property": "C16", "status": "open"|"fixed", "key": {...what identifies the failing input/call site...}, "what": "..."}"""
+    entries = []
+    files = [KNOWN]
+    kd = os.path.join(VERIF, "known_findings")
+    if os.path.isdir(kd):
+        files += [os.path.join(kd, f) for f in sorted(os.listdir(kd)) if f.endswith(".json")]
+    for fn in files:
+        try:
+            k = json.load(open(fn))
+        except (OSError, ValueError):
+            continue
+        entries += k.get("findings", [])
+    return [e for e in entries if e.get("property") == pid and e.get("status", "open") == "open"]
 
 
 def report_known(ctx, entry):
@@ -515,13 +551,42 @@ COMMON_TRUSTED = [
 
 
 def gate_library(ctx, prop_files, gen_files=()):
-    """hygiene + library build for the given property/theory files. returns (ok, lib_deps, problems)"""
+    """hygiene + library build for the given property files (and everything they depend on).
+    returns (ok, lib_deps, problems)"""
     deps = deps_of(prop_files)
-    probs = hygiene(library_files() + list(gen_files))
-    ok, out = build_coq(ctx)
+    probs = hygiene(deps + list(gen_files))
+    ok, out = build_coq(ctx, targets=deps)
     if not ok:
         probs.append("Coq library does not build: " + (coq_error(out) or out[-800:]))
     return (not probs), deps, probs
+
+
+def check_props(ctx, prop_files, gen_files=()):
+    """The standard library gate of a check: hygiene, build, Print Assumptions allow-list of every props file.
+    Reports a violation (no failing input) when anything is wrong.
+    Returns dict(ok, deps, obligations, axioms)."""
+    ok, deps, probs = gate_library(ctx, prop_files, gen_files)
+    axioms = set()
+    pa_ok = True
+    err = None
+    for pf in prop_files:
+        r_ok, closed, ax, out = prop_assumptions(ctx, pf)
+        pa_ok = pa_ok and r_ok
+        axioms |= ax
+        if not r_ok:
+            err = coq_error(out)
+        n_thm = len(theorems_in(pf))
+        if r_ok and closed + out.count("Axioms:") < n_thm:
+            probs.append("%s: %d theorems but only %d Print Assumptions reports" % (os.path.basename(pf), n_thm, closed + out.count("Axioms:")))
+    bad_ax = axioms_ok(axioms)
+    good = ok and pa_ok and not bad_ax and not probs
+    if not good:
+        violation(ctx, "hygiene gate / library build failed: %s %s %s" % (probs[:5], bad_ax, err or ""),
+                  {"broken": "library (theories/props do not build, forbidden vernacular, or an axiom outside the allow-list)",
+                   "problems": probs, "bad_axioms": bad_ax, "coq_error": err}, found_input=False)
+    n = count_obligations(deps)
+    return {"ok": good, "deps": deps, "obligations": n, "discharged": n if good else 0, "axioms": sorted(axioms),
+            "library_files": [os.path.relpath(d, VERIF) for d in deps]}
 
 
 def prop_assumptions(ctx, prop_file):
